@@ -369,8 +369,12 @@ def map_variables(
     target, variables = variable_groups
     if init:
       scopes = scope_fn((target, variables), rng_groups)
+      # the pre-run initialises the MAPPED collections: it is only needed (and
+      # its result only complete) when those can be written in this call.
       has_mutable_cols = any(
-        not is_filter_empty(scope.mutable)
+        not is_filter_empty(
+          intersect_filters(scope.mutable, mapped_collections)
+        )
         for scope in jax.tree_util.tree_leaves(scopes)
       )
       if has_mutable_cols:
